@@ -211,7 +211,7 @@ func c04R5(ic *IC, r *Report) {
 // are accepted; the one frozen exception is the direct result slots of an interpreted call.
 // c04HiddenSlots: slots that are not program variables, keyed "<generator>: <value generator>".
 var c04HiddenSlots = map[string]string{
-	"_range: value":   "the hidden shadow slot of a range statement (index2) receives the operand evaluated once through the copying generator (decided by R04.5)",
+	"_range: value": "the hidden shadow slot of a range statement (index2) receives the operand evaluated once through the copying generator (decided by R04.5)",
 }
 
 func c04R8(ic *IC, r *Report) {
